@@ -71,6 +71,10 @@ def h_write_file(faults: bool):
         rp = events_of(os_t, "replace")
         rm = events_of(os_t, "remove")
         fault = events_of(os_t, "FAULT")
+        # the target keeps its previous content until the rename swaps the new one in: nothing but the temp file is ever unlinked
+        h.ensure("ATOMIC:the-target-is-never-unlinked(only-the-temp-file-may-be-removed)",
+                 all(mk and z3.is_true(z3.simplify(e["path"] == mk[0]["path"])) for e in rm),
+                 detail="between an unlink of the target and the rename a reader (or a crash) finds no file at all")
         if out == "raise":
             h.ensure("DURABLE-WRITE:raises-only-on-an-OS-fault", len(fault) == 1 and bool(val.fields.get("fault")), detail=repr(val))
             h.ensure("ATOMIC:an-exception-means-the-rename-did-not-happen", len(rp) == 0)
